@@ -205,7 +205,7 @@ def impl_layer(ctx):
         v = ctx.mc("TlsImpl", cfgname, must_pass=False, coverage=False, label="vacuity: broken variant must violate an invariant")
         if v.ok or v.kind != "invariant":
             raise MachineryError("vacuity: %s does not violate the TlsImpl invariants (%s)" % (cfgname, v.kind))
-    behs = ctx.simulate("TlsImplSim", "TlsImplSim.cfg", num=ctx.pick(300, 6000), depth=16)
+    behs = ctx.simulate("TlsImplSim", "TlsImplSim.cfg", num=ctx.pick(300, 2000), depth=16)
     plans, predicted = [], []
     for b in behs:
         ops = []
@@ -260,7 +260,7 @@ def run(ctx):
         raise MachineryError("SecureStream spec violates its own invariants: " + r.error)
     ctx.require_actions("SecureStreamMC", ["MCWrite", "MCLose", "Reg", "Unreg", "XClose", "Eof", "Hs", "AppData", "Lost", "TClose", "Quiesce"])
     impl_traces = impl_layer(ctx)
-    n = ctx.pick(1500, 40000)
+    n = ctx.pick(1500, 20000)
     plans = [gen_plan(ctx.rng) for _ in range(n)]
     traces = impl_traces + run_plans(ctx, plans)
     ctx.log("recorded %d real executions, %d events" % (len(traces), sum(len(t["ev"]) for t in traces)))
